@@ -74,7 +74,7 @@ func opKey(op string) (int, bool) {
 		return 0, false
 	}
 	switch f[0] {
-	case "adv", "setmax", "runexec", "mkiter", "useiter", "alladv", "keysadv", "coldestadv", "hottestadv":
+	case "adv", "setmax", "runexec", "mkiter", "useiter", "alladv", "keysadv", "coldestadv", "hottestadv", "allinv":
 		return 0, false
 	}
 	return atoi(f[1]), true
@@ -125,6 +125,13 @@ func (s *seqRunner) apply(op string) OpResult {
 		if st.Hits+st.Misses == preHits+preMisses {
 			s.expHits, s.expMisses = preHits, preMisses
 		}
+	}
+	if strings.HasPrefix(op, "cleanup") && !s.deferred {
+		// C17: every successfully recorded read is delivered once the cache is quiescent and maintenance runs
+		if st := s.r.C.VerifStatus(); st.ReadBufferLen != 0 {
+			s.fail("reads-stuck-in-buffer", "readBuffer", "after op %q (single goroutine, same-goroutine executor) the read buffer still holds %d recorded reads: maintenance does not deliver them", op, st.ReadBufferLen)
+		}
+		s.counters["cleanups-with-empty-read-buffer"]++
 	}
 	hooks := r.Calcs[s.nCalcs:]
 	loads := r.Loads[s.nLoads:]
@@ -506,7 +513,14 @@ func (s *seqRunner) apply(op string) OpResult {
 				want = m.liveKeys()
 			}
 			sort.Ints(want)
-			if f0 := strings.Fields(op)[0]; strings.HasSuffix(f0, "adv") && f0 != "adv" {
+			if strings.Fields(op)[0] == "allinv" {
+				lb := append([]int(nil), ex.listBefore...)
+				sort.Ints(lb)
+				if fmt.Sprint(got) != fmt.Sprint(lb) {
+					s.fail("result-mismatch", name, "op %q (every yielded key is invalidated inside the loop body) yields %v, the abstract map held %v when the iteration began", op, got, lb)
+				}
+				s.counters["self-mutating-iterations"]++
+			} else if f0 := strings.Fields(op)[0]; strings.HasSuffix(f0, "adv") && f0 != "adv" {
 				// the clock advanced after the first element was yielded: the first element was live before the advance,
 				// every later one is live after it (an entry whose deadline passed meanwhile is not iterated over), no key
 				// twice, and every key that is live after the advance (present for the whole iteration) is yielded
